@@ -13,6 +13,53 @@ import CifModel.Lemmas.StoreSpecSetValue
 namespace CifModel.Store
 open Gen.ErrCodes
 
+-- ---- the tree model is a projection of the identity model ---------------------------------------------------------------------------
+
+theorem absALoop_toLoop (d : Db) (x : LoopRow) : (absALoop d x).toLoop = absLoop d x := by
+  unfold ALoop.toLoop absALoop absLoop
+  simp only [List.map_map]
+  rfl
+
+theorem treeContainer_absS (d : Db) : ∀ fuel,
+    (∀ cid code, (absS d).treeContainer fuel cid code = absContainer d fuel cid code) ∧
+    (∀ fs, (absS d).treeFrames fuel fs = absFrames d fuel fs) := by
+  have hl : ∀ cid, ((absS d).loops.filter (fun y => y.cid == cid)).map ALoop.toLoop = (d.loops.filter (fun l => l.cid == cid)).map (absLoop d) := by
+    intro cid
+    show ((d.loops.map (absALoop d)).filter _).map _ = _
+    rw [List.filter_map, List.map_map]
+    have : (fun y : ALoop => y.cid == cid) ∘ absALoop d = (fun l : LoopRow => l.cid == cid) := by funext x; rfl
+    rw [this]
+    apply List.map_congr_left
+    intro x _
+    exact absALoop_toLoop d x
+  intro fuel
+  induction fuel with
+  | zero =>
+    refine ⟨fun cid code => by simp [AState.treeContainer, absContainer], ?_⟩
+    intro fs
+    induction fs with
+    | nil => simp [AState.treeFrames, absFrames]
+    | cons f fs ih => simp [AState.treeFrames, absFrames, AState.treeContainer, absContainer, ih]
+  | succ k ih =>
+    have hc : ∀ cid code, (absS d).treeContainer (k + 1) cid code = absContainer d (k + 1) cid code := by
+      intro cid code
+      simp only [AState.treeContainer, absContainer, hl]
+      congr 1
+      exact ih.2 _
+    refine ⟨hc, ?_⟩
+    intro fs
+    induction fs with
+    | nil => simp [AState.treeFrames, absFrames]
+    | cons f fs ihf => simp only [AState.treeFrames, absFrames, hc, ihf]
+
+/-- what a dump through the public query API shows (`abs`) is the tree projection of the identity model -/
+theorem absS_tree (d : Db) : (absS d).tree = abs d := by
+  unfold AState.tree abs
+  show d.blocks.map _ = d.blocks.map _
+  apply List.map_congr_left
+  intro b _
+  exact (treeContainer_absS d _).1 _ _
+
 -- ---- worlds ------------------------------------------------------------------------------------------------------------------------------
 
 theorem AWorld.ext4 {a b : AWorld} (h1 : a.cifs = b.cifs) (h2 : a.chs = b.chs) (h3 : a.lhs = b.lhs) (h4 : a.its = b.its) : a = b := by
